@@ -16,7 +16,7 @@ pub const LG: [f64; 23] = [
     0.96875, 0.975, 0.99, 0.995, 0.999, 0.9999,
 ];
 /// quick-tier subset `LQ`
-pub const LQ: [f64; 7] = [0.001, 0.25, 0.5, 0.9, 0.95, 0.96875, 0.9999];
+pub const LQ: [f64; 8] = [0.001, 0.25, 0.5, 0.75, 0.9, 0.95, 0.96875, 0.9999];
 
 pub fn is_dyadic_level(l: f64) -> bool {
     // exactly representable with few bits: l * 2^10 is an integer
